@@ -27,12 +27,12 @@ type Desc struct {
 
 	// stress: one producer/consumer run over Chunks chunks
 	Chunks       int  `json:"chunks,omitempty"`
-	Bounds       bool `json:"bounds,omitempty"`        // producer counters: emptiness/depth bounds oracle + flow control (adds harness synchronisation)
-	MaxBacklog   int  `json:"max_backlog,omitempty"`   // bounds mode: producer waits while this many chunks are untaken
-	Burst        int  `json:"burst,omitempty"`         // producer sleeps after every Burst chunks (consumer-fast regime)
-	CBurst       int  `json:"c_burst,omitempty"`       // consumer sleeps after every CBurst operations (producer-fast regime: backlog builds up)
+	Bounds       bool `json:"bounds,omitempty"`      // producer counters: emptiness/depth bounds oracle + flow control (adds harness synchronisation)
+	MaxBacklog   int  `json:"max_backlog,omitempty"` // bounds mode: producer waits while this many chunks are untaken
+	Burst        int  `json:"burst,omitempty"`       // producer sleeps after every Burst chunks (consumer-fast regime)
+	CBurst       int  `json:"c_burst,omitempty"`     // consumer sleeps after every CBurst operations (producer-fast regime: backlog builds up)
 	BurstSleepUs int  `json:"burst_sleep_us,omitempty"`
-	PYieldPm     int  `json:"p_yield_pm,omitempty"`    // per-mille Gosched after a producer operation (lin: both clients)
+	PYieldPm     int  `json:"p_yield_pm,omitempty"` // per-mille Gosched after a producer operation (lin: both clients)
 	CYieldPm     int  `json:"c_yield_pm,omitempty"`
 	ReqPm        int  `json:"requeue_pm,omitempty"`    // consumer: per-mille put-back when it holds a chunk it just took
 	DepthPm      int  `json:"depth_pm,omitempty"`      // consumer: per-mille GetDepth
